@@ -479,6 +479,7 @@ type replayFile struct {
 	Site     string   `json:"site"`
 	Names    []string `json:"names"`
 	Vector   []uint64 `json:"vector"`
+	Sched    []uint64 `json:"schedule,omitempty"`
 	Native   string   `json:"native_outcome"`
 }
 
@@ -688,7 +689,7 @@ func runProperty() int {
 			// file system): there is nothing to run natively. Witnesses and counterexamples are
 			// re-executed concretely by the engine over the same real SSA code plus the model.
 			for _, w := range res.Witnesses {
-				oc, _, reached, _ := eng.RunConcrete(fn, cfg, w.Vector)
+				oc, _, reached, _ := eng.RunConcrete(fn, cfg, w.Vector, w.Sched...)
 				totalValidated++
 				if oc != "ok" || strings.Join(reached, ",") != strings.Join(w.Reached, ",") {
 					totalDisagree++
@@ -696,9 +697,9 @@ func runProperty() int {
 				}
 			}
 			for vi, v := range res.Violations {
-				oc, msg, _, _ := eng.RunConcrete(fn, cfg, v.Vector)
+				oc, msg, _, _ := eng.RunConcrete(fn, cfg, v.Vector, v.Sched...)
 				confirmed := (v.Kind == "assert" && oc == "assert" && strings.HasPrefix(msg, v.Msg)) || (v.Kind == "panic" && oc == "panic")
-				rf := replayFile{Property: *prop, Harness: h.Name, Dir: h.Dir, Kind: v.Kind, Msg: v.Msg, Site: v.Site, Names: v.Names, Vector: v.Vector, Native: "model-replay " + oc + ": " + clip(msg, 300)}
+				rf := replayFile{Property: *prop, Harness: h.Name, Dir: h.Dir, Kind: v.Kind, Msg: v.Msg, Site: v.Site, Names: v.Names, Vector: v.Vector, Sched: v.Sched, Native: "model-replay " + oc + ": " + clip(msg, 300)}
 				rp := filepath.Join(replayDir, fmt.Sprintf("%s_%s_%d.json", *prop, h.Name, vi))
 				b, _ := json.MarshalIndent(rf, "", " ")
 				os.WriteFile(rp, b, 0o644)
